@@ -210,7 +210,7 @@ def threaded_runs(ctx):
     ctx.notes[:] = [n for n in ctx.notes if not n.startswith("schedule enumeration")]
     runs = []
     ctx._c18_shape = []
-    max_runs = ctx.budget(160, 1000)
+    max_runs = ctx.budget(160, 700)
     with S.gettz_env():
         for ci, (spec, cap, scripts, bound) in enumerate(FIXED_CASES):
             b = bound if ctx.tier == "thorough" or ctx.escalated else (1 if len(scripts) <= 2 else 0)   # quick: small bounds, meant to be exhaustive
@@ -230,7 +230,7 @@ def threaded_runs(ctx):
                 runs.append(summarize(rec, spec, cap, scripts, {"policy": "prefix", "case": "fine%d" % ci, "fine": True}))
             try:
                 b = bound if ctx.tier == "thorough" or ctx.escalated else (1 if len(scripts) <= 2 else 0)
-                ex, distinct, exhaustive = S.explore(make, b, ctx.budget(160, 500), on_run, fine=True)
+                ex, distinct, exhaustive = S.explore(make, b, ctx.budget(160, 400), on_run, fine=True)
                 record_explore(ctx, "fine%d" % ci, spec, scripts, b, ex, distinct, exhaustive)
             except S.ShapeChanged as ex:
                 ctx._c18_shape.append("%s: %s" % (spec, ex))
